@@ -3,6 +3,7 @@ package cfggen
 import (
 	"fmt"
 	"strconv"
+	"strings"
 
 	"pgregory.net/rapid"
 )
@@ -19,13 +20,136 @@ func (nm *namer) next(t *rapid.T, bases []string) string {
 	return rapid.SampledFrom(bases).Draw(t, "namebase") + strconv.Itoa(nm.n)
 }
 
-// labels are kept disjoint from attribute/block names: they always contain a
-// character that the name bases never produce at that position (an upper-case
-// 'L' prefix followed by free text).
-var labelPool = []string{"L", "La", "Lb", "L c", "L-d", "L.e", "Lé", "L\"q", "L\\b", "L_1", "L0"}
+// Labels are arbitrary strings, so they are drawn from representation classes
+// rather than from identifiers: what a label looks like must not matter to any
+// syntax.  (The single-fault generator's extra label "Lextra" is the only label
+// that relies on not being a schema name.)
+type textClass struct {
+	name string
+	vals []string
+}
 
-func genLabel(t *rapid.T) string {
-	return rapid.SampledFrom(labelPool).Draw(t, "label")
+var labelClasses = []textClass{
+	{"plain", []string{"L", "La", "Lb", "L_1", "L-d"}},
+	{"starts-with-slashes", []string{"//fileserver/public", "// note", "//2", "///"}},
+	{"equals-slashes", []string{"//"}},
+	{"starts-with-hash", []string{"#tag", "# x"}},
+	{"starts-with-block-comment", []string{"/*c*/", "/* open"}},
+	{"quote", []string{"L\"q", "\"", "'s"}},
+	{"backslash", []string{"L\\b", "\\", "\\n", "C:\\dir\\"}},
+	{"newline", []string{"two\nlines", "\n", "ends\n"}},
+	{"tab", []string{"a\tb", "\t"}},
+	{"interpolation", []string{"${x}", "a${", "$${y}", "$"}},
+	{"directive", []string{"%{if}", "100%{", "%"}},
+	{"dot", []string{"L.e", "a.b.c", ".", "x.0"}},
+	{"bracket", []string{"a[0]", "[", "{}", "}", "(x)"}},
+	{"space", []string{"L c", " lead", "trail ", " "}},
+	{"empty", []string{""}},
+	{"long", []string{strings.Repeat("long-label-", 40)}},
+	// (all NFC: cty normalises every string value to NFC, so a label computed by a
+	// dynamic block comes out normalised while a static label is kept as written)
+	{"non-ascii", []string{"Lé", "日本語", "ü", "✓", "Ünï-Ködé"}},
+	{"json-word", []string{"null", "true", "false", "dynamic", "content", "for_each", "labels"}},
+	{"numeric", []string{"0", "42", "-1", "1e3", "0.5", "007", "0x1f"}},
+	{"case-variant", []string{"web", "Web", "WEB", "wEB"}},
+	{"separator", []string{",", ":", "=", "a=b", "k:v"}},
+}
+
+// LabelPool returns every pool label (for the printers' self-test).
+func LabelPool() []string {
+	var out []string
+	for _, c := range labelClasses {
+		out = append(out, c.vals...)
+	}
+	return out
+}
+
+// KeyPool returns every pool map key.
+func KeyPool() []string { return append([]string{}, keyPool...) }
+
+// genLabel draws a label; names are the schema names in scope (a label may equal
+// an attribute name or a block type name).
+func genLabel(t *rapid.T, names []string) string {
+	c := rapid.IntRange(0, len(labelClasses)+3).Draw(t, "labelclass")
+	switch {
+	case c < len(labelClasses):
+		return rapid.SampledFrom(labelClasses[c].vals).Draw(t, "label")
+	case c == len(labelClasses) && len(names) > 0:
+		return rapid.SampledFrom(names).Draw(t, "label-schema-name")
+	}
+	return rapid.SampledFrom(labelClasses[0].vals).Draw(t, "label")
+}
+
+var jsonWords = map[string]bool{"null": true, "true": true, "false": true, "dynamic": true, "content": true, "for_each": true, "labels": true, "iterator": true}
+
+// TextClasses names the representation classes a label / key falls into.
+func TextClasses(s string) []string {
+	var out []string
+	add := func(c string) { out = append(out, c) }
+	switch {
+	case s == "":
+		add("empty")
+	case s == "//":
+		add("equals-slashes")
+	case strings.HasPrefix(s, "//"):
+		add("starts-with-slashes")
+	case strings.HasPrefix(s, "#"):
+		add("starts-with-hash")
+	case strings.HasPrefix(s, "/*"):
+		add("starts-with-block-comment")
+	}
+	if strings.Contains(s, "\"") {
+		add("quote")
+	}
+	if strings.Contains(s, "\\") {
+		add("backslash")
+	}
+	if strings.Contains(s, "\n") {
+		add("newline")
+	}
+	if strings.Contains(s, "\t") {
+		add("tab")
+	}
+	if strings.Contains(s, "${") {
+		add("interpolation")
+	}
+	if strings.Contains(s, "%{") {
+		add("directive")
+	}
+	if strings.Contains(s, ".") {
+		add("dot")
+	}
+	if strings.ContainsAny(s, "[]{}()") {
+		add("bracket")
+	}
+	if strings.Contains(s, " ") {
+		add("space")
+	}
+	if strings.ContainsAny(s, ",:=") {
+		add("separator")
+	}
+	if len(s) > 100 {
+		add("long")
+	}
+	for _, r := range s {
+		if r > 0x7f {
+			add("non-ascii")
+			break
+		}
+	}
+	if jsonWords[s] {
+		add("json-word")
+	}
+	if _, err := strconv.ParseFloat(s, 64); err == nil {
+		add("numeric")
+	}
+	if strings.EqualFold(s, "web") {
+		add("case-variant")
+	}
+	if len(out) == 0 {
+		add("plain")
+	}
+	return out
 }
 
 // ---------------------------------------------------------------- types
@@ -336,7 +460,8 @@ func WidenNumbers(t *rapid.T, v Val, ty Type) Val {
 	return v
 }
 
-var keyPool = []string{"k", "key-1", "a b", "ö", "x_y", "0", "K.dot", "q\"", "${k}"}
+var keyPool = []string{"k", "key-1", "a b", "ö", "x_y", "0", "K.dot", "q\"", "${k}",
+	"//", "// c", "//2", "#k", "/*k*/", "a.b", "a[0]", "", "null", "true", "1e3", "Key", "key", "KEY", "new\nline", "tab\t", "%{k}", "back\\slash", "k=v", "k:v", "日本", strings.Repeat("long-key-", 30)}
 
 func GenVal(t *rapid.T, ty Type) Val {
 	switch ty.K {
@@ -456,18 +581,32 @@ func GenInstance(t *rapid.T, s *BodyS) BodyI {
 	return in
 }
 
-func genLabels(t *rapid.T, n int) []string {
+func genLabels(t *rapid.T, n int, names []string) []string {
 	var l []string
 	for i := 0; i < n; i++ {
-		l = append(l, genLabel(t))
+		l = append(l, genLabel(t, names))
 	}
 	return l
+}
+
+// namesInScope: the block's own type name and the names its body declares.
+func namesInScope(bs *BlockS) []string {
+	out := []string{bs.Name}
+	if bs.Body != nil {
+		for _, a := range bs.Body.Attrs {
+			out = append(out, a.Name)
+		}
+		for _, b := range bs.Body.Blocks {
+			out = append(out, b.Name)
+		}
+	}
+	return out
 }
 
 // siblingLabels draws the label lists of n sibling blocks with k labels each:
 // often the siblings share a label prefix of some length (frequently all but the
 // last label) and differ in the rest.
-func siblingLabels(t *rapid.T, n, k int) [][]string {
+func siblingLabels(t *rapid.T, n, k int, names []string) [][]string {
 	out := make([][]string, n)
 	if k == 0 {
 		return out
@@ -481,9 +620,9 @@ func siblingLabels(t *rapid.T, n, k int) [][]string {
 	case 4:
 		share = k // identical label lists (valid for lists/sets; dropped as duplicates for maps)
 	}
-	prefix := genLabels(t, share)
+	prefix := genLabels(t, share, names)
 	for i := range out {
-		out[i] = append(append([]string{}, prefix...), genLabels(t, k-share)...)
+		out[i] = append(append([]string{}, prefix...), genLabels(t, k-share, names)...)
 	}
 	return out
 }
@@ -493,7 +632,7 @@ func genBlocks(t *rapid.T, bs *BlockS) []BlockI {
 	switch bs.Kind {
 	case "single":
 		if bs.Req || rapid.IntRange(0, 9).Draw(t, "bpresent") < 6 {
-			out = append(out, BlockI{Type: bs.Name, Labels: genLabels(t, bs.NLabels), Body: GenInstance(t, bs.Body)})
+			out = append(out, BlockI{Type: bs.Name, Labels: genLabels(t, bs.NLabels, namesInScope(bs)), Body: GenInstance(t, bs.Body)})
 		}
 	case "attrs":
 		if bs.Req || rapid.IntRange(0, 9).Draw(t, "bpresent") < 6 {
@@ -514,7 +653,7 @@ func genBlocks(t *rapid.T, bs *BlockS) []BlockI {
 		}
 		n := rapid.IntRange(bs.Min, max).Draw(t, "nrep")
 		uniform := rapid.IntRange(0, 9).Draw(t, "uniform") < 7
-		labels := siblingLabels(t, n, bs.NLabels)
+		labels := siblingLabels(t, n, bs.NLabels, namesInScope(bs))
 		for i := 0; i < n; i++ {
 			b := BlockI{Type: bs.Name, Labels: labels[i], Body: GenInstance(t, bs.Body)}
 			if uniform && i > 0 {
@@ -526,7 +665,7 @@ func genBlocks(t *rapid.T, bs *BlockS) []BlockI {
 		n := rapid.IntRange(0, 4).Draw(t, "nrep")
 		uniform := rapid.IntRange(0, 9).Draw(t, "uniform") < 7
 		seen := map[string]bool{}
-		labels := siblingLabels(t, n, bs.NLabels)
+		labels := siblingLabels(t, n, bs.NLabels, namesInScope(bs))
 		for i := 0; i < n; i++ {
 			l := labels[i]
 			k := fmt.Sprintf("%q", l)
